@@ -19,14 +19,29 @@ func noop(e *Engine, caller *frame, fn *ssa.Function, args []Value) Value { retu
 // zeroResult returns the zero value(s) of fn's results.
 func zeroResult(e *Engine, caller *frame, fn *ssa.Function, args []Value) Value {
 	res := fn.Signature.Results()
+	// func-typed results of a stubbed (logging) package become callable no-ops
+	// (e.g. the `logEnd` func returned by logger.NewOperation)
+	z := func(t types.Type) Value {
+		if sig, ok := t.Underlying().(*types.Signature); ok {
+			return NoopFunc{sig: sig}
+		}
+		return e.zero(t)
+	}
 	switch res.Len() {
 	case 0:
 		return nil
 	case 1:
-		return e.zero(res.At(0).Type())
+		return z(res.At(0).Type())
 	}
-	return e.zero(res)
+	tp := make(Tuple, res.Len())
+	for i := range tp {
+		tp[i] = z(res.At(i).Type())
+	}
+	return tp
 }
+
+// NoopFunc is a function value that does nothing and returns zero values.
+type NoopFunc struct{ sig *types.Signature }
 
 func init() {
 	intrinsics = map[string]intrinsic{
